@@ -142,3 +142,29 @@ func Forget(ids ...string) {
 		delete(listeners, id)
 	}
 }
+
+// StartSocket runs the server with the real socket listener (type "socket"); there is
+// no listener handle, so readiness is "Run has been given time to bind": the socket
+// listener binds synchronously inside Start before Run enters its accept loop, and the
+// harness dials with retry.
+func StartSocket(id string, toml string) (*Server, error) {
+	startMu.Lock()
+	defer startMu.Unlock()
+	config.Default = config.Config{}
+	h, err := server.New(func(h *server.Honeytrap) error {
+		return config.Default.Load(bytes.NewBufferString(toml))
+	})
+	if err != nil {
+		return nil, err
+	}
+	ctx, cancel := context.WithCancel(context.Background())
+	s := &Server{ID: id, cancel: cancel, done: make(chan struct{})}
+	go func() {
+		defer close(s.done)
+		h.Run(ctx)
+	}()
+	// wait until every service named in the configuration has been constructed and
+	// the listener had time to bind (binding happens right after the port table)
+	time.Sleep(60 * time.Millisecond)
+	return s, nil
+}
